@@ -20,7 +20,7 @@ from .. import snutil as su
 from ..core import Check, Part, Result, must, safe_deepcopy
 
 OBSERVERS = ['export', 'export_nobn', 'summary', 'cost', 'get_cost', 'swap_spec', 'str']
-MUTATORS = ['forward', 'step', 'train', 'eval', 'mixed_mode']
+MUTATORS = ['forward', 'step', 'train', 'eval', 'mixed_mode', 'nas_only', 'net_only']
 ALPHABET = OBSERVERS + MUTATORS
 
 
@@ -118,6 +118,7 @@ def snapshot(ad: Adapter, m, rev=False):
     snap['summary'] = repr(m.summary())
     snap['state'] = {k: v.detach().clone() for k, v in m.state_dict().items()}
     snap['training'] = [(n, mod.training) for n, mod in m.named_modules()]
+    snap['requires_grad'] = [(n, p.requires_grad) for n, p in m.named_parameters()]
     snap['spec_names'] = sorted(m.cost_specification.keys())
     return snap
 
@@ -129,6 +130,9 @@ def snap_diff(a, b):
     if a['training'] != b['training']:
         ch = [n for (n, t), (_, t2) in zip(a['training'], b['training']) if t != t2]
         return 'training-mode-changed', {'modules': ch[:5]}
+    if a['requires_grad'] != b['requires_grad']:
+        ch = [n for (n, t), (_, t2) in zip(a['requires_grad'], b['requires_grad']) if t != t2]
+        return 'trainability-flags-changed', {'parameters': ch[:5]}
     if list(a['state']) != list(b['state']):
         return 'state-dict-keys-changed', {}
     for k in a['state']:
@@ -174,11 +178,17 @@ def do_mutator(ad: Adapter, m, op, k):
         leaves = [mod for _, mod in m.named_modules() if not list(mod.children())]
         for mod in leaves[1::2]:
             mod.eval()
+    elif op == 'nas_only':
+        m.train_nas_only()          # a search phase with the network weights frozen
+    elif op == 'net_only':
+        m.train_net_only()          # warm-up / fine-tuning phase
     elif op == 'step':
         params = [p for p in m.parameters() if p.requires_grad]
-        opt = torch.optim.SGD(params, lr=1e-2)
         y = ng.call(m, x)
         loss = (y ** 2).mean() + 1e-4 * sum(m.get_cost(n) for n in ad.specs)
+        if not params or not loss.requires_grad:
+            return                  # nothing trains in this phase
+        opt = torch.optim.SGD(params, lr=1e-2)
         opt.zero_grad()
         loss.backward()
         # bounded update: no history of steps may diverge (NaN parameters compare unequal to
@@ -311,6 +321,9 @@ def run_history(ad: Adapter, ops, res: Result):
     if [(n, t.training) for n, t in A.named_modules()] != [(n, t.training)
                                                            for n, t in B.named_modules()]:
         res.bad('twin-training-flags-diverged')
+    if [(n, p.requires_grad) for n, p in A.named_parameters()] != [
+            (n, p.requires_grad) for n, p in B.named_parameters()]:
+        res.bad('twin-trainability-flags-diverged')
     return n_obs
 
 
@@ -433,7 +446,7 @@ CHECK = Check(
     parts=[
         Part('short-histories', oracle, enumerate=enum_short, enum_parallel=True,
              shards={'quick': 8, 'thorough': 16},
-             exhaustive_note='ALL sequences of length <= 2 (thorough: <= 3) over the 12-letter '
+             exhaustive_note='ALL sequences of length <= 2 (thorough: <= 3) over the 14-letter '
                              'alphabet containing at least one observer, on one fixed model per '
                              'method (MPS and SuperNet also before any forward pass)'),
         Part('pit', oracle, strategy=pit_cases(),
